@@ -206,6 +206,7 @@ fn session(c: &Corpus, which: Impl, compressed: bool, style: u64, total_bytes: u
                     _ => ReadResult::DecodeErr,
                 });
             }
+            p.distinct(&(compressed, d));
             let n = pr.peer.send(d).map_err(|e| format!("peer send failed: {e}"))?;
             if n != d.len() {
                 return Err("peer send was short".into());
@@ -366,7 +367,7 @@ pub fn run(ctx: &mut Ctx) -> (&'static str, String, bool) {
     ctx.assume("loss is decided by observing an empty kernel queue (three consecutive observations) while packets are owed, never by a timeout alone");
     (
         "exploration",
-        "real loopback UDP socket pairs; per {blocking,tokio} x {compressed,uncompressed} x 4 datagram-size styles (small, maximal incl. a single 1020-byte frame, uniform, bimodal): bursts of 1-4 datagrams of 1..n frames until several times the 6120-byte buffer has passed through, every delivered packet compared with the isolated decoding of the sent frames; then 40 writes observed as exactly one datagram each; distinct = distinct sessions".into(),
+        "real loopback UDP socket pairs; per {blocking,tokio} x {compressed,uncompressed} x 4 datagram-size styles (small, maximal incl. a single 1020-byte frame, uniform, bimodal): bursts of 1-4 datagrams of 1..n frames until several times the 6120-byte buffer has passed through, every delivered packet compared with the isolated decoding of the sent frames; then 40 writes observed as exactly one datagram each; distinct = distinct (mode, datagram) sent by the peer".into(),
         false,
     )
 }
